@@ -1,4 +1,6 @@
 import WowVerif.Lemmas.C06
+import WowVerif.Props.C07
+import WowVerif.Model.C06Compact
 /-!
 C06 — In-place archive modification behaves as a persistent name→bytes map.
 
@@ -613,5 +615,54 @@ example : CursorOk exSess ∧ TablesWf exSess := by
     cases i with
     | zero => simp [exSess] at h
     | succ i => simp [exSess] at h
+
+/-! ### compact (Model.C06Compact): a rebuild of everything, or nothing -/
+
+theorem excluded_noOpts (e : Rebuild.Entry) : Rebuild.excluded Compact.noOpts e = false := by
+  simp [Rebuild.excluded, Compact.noOpts]
+
+/-- COMPACT PRESERVES THE MAP: when compaction succeeds, every live entry was resolvable and readable, the new archive holds
+    under every live name exactly the content read from the old one, and it holds nothing else -/
+theorem compact_preserves_map (live : List (Option Rebuild.Entry)) (xs : List (Bytes × Bytes))
+    (h : Compact.plan live = .ok xs) (hnd : (Rebuild.names (live.filterMap id)).Nodup) :
+    (∀ o ∈ live, o.isSome) ∧
+    (∀ e, some e ∈ live → Rebuild.lookup xs e.name = e.content ∧ e.content.isSome) ∧
+    (∀ p ∈ xs, ∃ e, some e ∈ live ∧ e.name = p.1 ∧ e.content = some p.2) := by
+  unfold Compact.plan at h
+  by_cases hany : (live.any (·.isNone)) = true
+  · rw [if_pos hany] at h; cases h
+  · rw [if_neg hany] at h
+    cases hx : Rebuild.extract Compact.noOpts (live.filterMap id) with
+    | error n => rw [hx] at h; cases h
+    | ok ys =>
+      rw [hx] at h
+      simp only [Except.ok.injEq] at h
+      subst h
+      have hall : ∀ o ∈ live, o.isSome := by
+        intro o ho
+        cases o with
+        | some _ => rfl
+        | none => exact absurd (List.any_eq_true.mpr ⟨none, ho, rfl⟩) hany
+      refine ⟨hall, fun e he => ?_, fun p hp => ?_⟩
+      · have hmem : e ∈ live.filterMap id := List.mem_filterMap.mpr ⟨some e, he, rfl⟩
+        have hl := Rebuild.rebuilt_lookup Compact.noOpts _ ys hnd hx e hmem
+        rw [excluded_noOpts] at hl
+        simp only [Bool.false_eq_true, if_false] at hl
+        obtain ⟨d, hd, _⟩ := Rebuild.extract_complete Compact.noOpts _ ys hx e hmem (excluded_noOpts e)
+        exact ⟨hl, by rw [hd]; rfl⟩
+      · obtain ⟨e, he, h1, h2, _⟩ := Rebuild.extract_sound Compact.noOpts _ ys hx p hp
+        obtain ⟨o, ho, hoe⟩ := List.mem_filterMap.mp he
+        simp only [id] at hoe
+        subst hoe
+        exact ⟨e, ho, h1, h2⟩
+
+/-- COMPACT REFUSES what it cannot name: one live entry without a listed name and nothing is replaced -/
+theorem compact_refuses_unresolvable (live : List (Option Rebuild.Entry)) (h : none ∈ live) :
+    Compact.plan live = .error .unresolvable := by
+  unfold Compact.plan
+  rw [if_pos (List.any_eq_true.mpr ⟨none, h, rfl⟩)]
+
+example : (match Compact.plan [some ⟨[97], 0, some [1, 2]⟩, some ⟨[98], 0x10000, some []⟩] with
+    | .ok xs => xs == [([97], [1, 2]), ([98], [])] | .error _ => false) = true := by decide
 
 end Wv.Mut
